@@ -118,7 +118,9 @@ pub fn auth_preamble(data: &[u8]) -> CaseResult {
     use sha2::{Digest, Sha256};
     use tokio::io::{AsyncReadExt, AsyncWriteExt};
     let mut b = Bytes::new(data);
-    let p = frag(&mut b);
+    let mut p = frag(&mut b);
+    // the whole stream is written before the reader starts: the pipe must hold it
+    p.capacity = 1 << 22;
     let mode = b.u8();
     let expected: [u8; 32] = Sha256::digest(b"fuzz-password").into();
     let mut stream = b.rest().to_vec();
